@@ -52,6 +52,13 @@ def main():
     for p in props:
         pid = p["id"]
         text, note = TEXT[pid]
+        # the builders keep the current wording next to the check: props/Cnn/prop.json
+        try:
+            pj = json.load(open(os.path.join(ROOT, "props", pid, "prop.json")))
+            text = pj.get("manifest_text") or text
+            note = pj.get("manifest_note") or note
+        except Exception:
+            pass
         if pid in READY:
             man["checks"].append({
                 "property_id": pid,
